@@ -35,23 +35,41 @@ type LimitParallelRequests struct {
 	doObserve     DoObserveFunc
 	// only one request can be processed by one endpoint
 	endpointQueues *coapSync.Map[uint64, *endpointQueue]
+	// called before a request starts to wait for its turn
+	beforeWait func()
+}
+
+// Option configures LimitParallelRequests.
+type Option func(*LimitParallelRequests)
+
+// WithBeforeWait sets a function that is called before a request waits for its turn. A connection uses it to
+// keep processing incoming messages while a request that was issued from a handler waits.
+func WithBeforeWait(f func()) Option {
+	return func(c *LimitParallelRequests) {
+		c.beforeWait = f
+	}
 }
 
 // New creates new LimitParallelRequests. When limit, endpointLimit == 0, then limit is not used.
-func New(limit, endpointLimit int64, do DoFunc, doObserve DoObserveFunc) *LimitParallelRequests {
+func New(limit, endpointLimit int64, do DoFunc, doObserve DoObserveFunc, opts ...Option) *LimitParallelRequests {
 	if limit <= 0 {
 		limit = math.MaxInt64
 	}
 	if endpointLimit <= 0 {
 		endpointLimit = math.MaxInt64
 	}
-	return &LimitParallelRequests{
+	c := &LimitParallelRequests{
 		limit:          semaphore.NewWeighted(limit),
 		endpointLimit:  endpointLimit,
 		do:             do,
 		doObserve:      doObserve,
 		endpointQueues: coapSync.NewMap[uint64, *endpointQueue](),
+		beforeWait:     func() {},
 	}
+	for _, o := range opts {
+		o(c)
+	}
+	return c
 }
 
 func hash(opts message.Options) uint64 {
@@ -133,6 +151,7 @@ func (c *LimitParallelRequests) releaseEndpoint(endpointLimitKey uint64) {
 }
 
 func (c *LimitParallelRequests) Do(req *pool.Message) (*pool.Message, error) {
+	c.beforeWait()
 	endpointLimitKey := hash(req.Options())
 	if err := c.acquireEndpoint(req.Context(), endpointLimitKey); err != nil {
 		return nil, fmt.Errorf("cannot process request %v for client endpoint limit: %w", req, err)
@@ -146,6 +165,7 @@ func (c *LimitParallelRequests) Do(req *pool.Message) (*pool.Message, error) {
 }
 
 func (c *LimitParallelRequests) DoObserve(req *pool.Message, observeFunc func(req *pool.Message)) (Observation, error) {
+	c.beforeWait()
 	endpointLimitKey := hash(req.Options())
 	if err := c.acquireEndpoint(req.Context(), endpointLimitKey); err != nil {
 		return nil, fmt.Errorf("cannot process observe request %v for client endpoint limit: %w", req, err)
